@@ -44,6 +44,13 @@ def run(chk, w):
         cs = P.callers().get(g.name, [])
         return bool(cs) and all(cf.name == disp0.name for cf, ci in cs) and any((p.get("type") or "") == "i8*" for p in g.params)
     chk.extra["dispatcher_helpers_inlined"] = sorted(set(inline.inline_helpers(P, disp0.name, _msg_helper)))
+    # the sender's buffers are checked by C01 (its normalisation of the sender unit is applied before the receiver's call tree is listed)
+    from . import c01 as _c01
+    try:
+        _sr = _c01.send_roles(w)
+        _send_bufs = set(_sr["staging"]) | set(_sr["batch"])
+    except AnalysisBroken:
+        _send_bufs = set()
     rx, rxf = rx_functions(w)
     D = dispatch.Dispatch(w)
     disp = D.fn
@@ -64,12 +71,7 @@ def run(chk, w):
     # ---- TAB / PKT
     E = intervals.Engine(w, set())
     chk.rule("C12-TAB", "every variable subscript of a fixed-size table or local array in the receiver's call tree is in range")
-    from . import c01 as _c01
-    try:
-        _sr = _c01.send_roles(w)
-        send_bufs = set(_sr["staging"]) | set(_sr["batch"])
-    except AnalysisBroken:
-        send_bufs = set()
+    send_bufs = _send_bufs
     n = 0
     for name in sorted(rxf):
         f = P.functions[name]
@@ -246,8 +248,26 @@ def run(chk, w):
                 if bounded or len(exits) > len(term_tests):
                     chk.ok("C12-SCAN", 1, {"function": name, "loop_at": term_tests[0].loc(), "bounded": True})
                 else:
-                    chk.violation("C12-SCAN", name, "unbounded-terminator-scan", term_tests[0].loc(),
-                                  "%s scans the message for a 0 byte with no bound: an address stack without terminator is read past the heap buffer" % name)
+                    # a scan inside a static helper is reported under the externally visible function(s) that use it, so the finding
+                    # keeps its identity when the duplicated scan is moved into (or out of) a shared helper
+                    owners = [name]
+                    if P.functions[name].internal:
+                        owners = []
+                        work, seen_o = [name], {name}
+                        while work:
+                            n_ = work.pop()
+                            for cf_, ci_ in P.callers().get(n_, []):
+                                if cf_.name in seen_o:
+                                    continue
+                                seen_o.add(cf_.name)
+                                if cf_.internal:
+                                    work.append(cf_.name)
+                                else:
+                                    owners.append(cf_.name)
+                        owners = sorted(owners) or [name]
+                    for own in owners:
+                        chk.violation("C12-SCAN", own, "unbounded-terminator-scan", term_tests[0].loc(),
+                                      "%s scans the message for a 0 byte with no bound%s: an address stack without terminator is read past the heap buffer" % (own, "" if own == name else " (in its helper %s)" % name))
     chk.floor("terminator_scans", nscan, 3)
 
     # ---- NUL
